@@ -1,2 +1,4 @@
 # Registrations: property id -> level, engine parts.  (exec'd by ./check)
 reg("C11", "model_checking", [P("buf", "explore")])
+reg("C13", "exploration", [P("codec", "pnm"), P("codec", "pnm", profile="verif-rel", tiers=("thorough",), name="pnm-rel")])
+reg("C14", "exploration", [P("codec", "obj"), P("codec", "obj", profile="verif-rel", name="obj-rel")])
